@@ -41,6 +41,7 @@ class Daemon:
         self.conf_path = os.path.join(self.dir, "bus.conf")
         with open(self.conf_path, "w") as f:
             f.write(self.config)
+        self._old_policy = policy
         env = dict(os.environ)
         env.update({"ASAN_OPTIONS": "detect_leaks=0:abort_on_error=1", "UBSAN_OPTIONS": "print_stacktrace=1:halt_on_error=1",
                     "DBUS_FATAL_WARNINGS": "0"})
@@ -59,6 +60,17 @@ class Daemon:
 
     def alive(self):
         return self.proc.poll() is None
+
+    def reload(self, policy):
+        """the same configuration with another <policy> part; SIGHUP makes the daemon read it again"""
+        import signal
+        self.config = self.config.replace(self._old_policy, policy, 1)
+        self._old_policy = policy
+        tmp = self.conf_path + ".new"
+        with open(tmp, "w") as f:
+            f.write(self.config)
+        os.replace(tmp, self.conf_path)
+        self.proc.send_signal(signal.SIGHUP)
 
     def stderr(self):
         self.errf.flush()
